@@ -2,6 +2,7 @@
 from __future__ import annotations
 
 import ast
+import re
 import glob
 import io
 import tempfile
@@ -115,6 +116,13 @@ def verdict(e, chars, bts, lines) -> str | None:
     return "not-a-token-start"
 
 
+def _quiet_compile(src: str) -> None:
+    import warnings
+    with warnings.catch_warnings():
+        warnings.simplefilter("ignore")
+        compile(src, "v", "exec")
+
+
 class Prefixer(ast.NodeVisitor):
     """line numbers of single-line simple statements (safe to prefix with `"é"; `)"""
 
@@ -144,11 +152,39 @@ def variants(src: str, name: str) -> dict[str, bytes]:
             if l.strip() and not l.lstrip().startswith(("@", "#")):
                 ls[ln - 1] = l[:ind] + '"é中"; ' + l[ind:]
         cand = "\n".join(ls)
-        compile(cand, "v", "exec")
+        _quiet_compile(cand)
         out[f"nonascii_{name}"] = cand.encode("utf8")
     except Exception:  # noqa: BLE001
         pass
     out[f"ff_{name}"] = ("\x0c\n" + src).encode("utf8")
+    # non-ASCII on both sides of every position: a long multi-byte prefix statement and multi-byte
+    # text at the start of every plain string literal (a column computed from a byte offset by
+    # anything other than decoding the bytes before it goes wrong on one side or the other)
+    try:
+        import io
+        import tokenize as tk
+        ls = src.split("\n")
+        edits = []
+        for t in tk.generate_tokens(io.StringIO(src).readline):
+            if t.type == tk.STRING and t.start[0] == t.end[0]:
+                m = re.match(r"([rRuU]?)('|\")(?!\2)", t.string)
+                if m and len(t.string) > 2:
+                    edits.append((t.start[0], t.start[1] + len(m.group(0))))
+        for ln, col in sorted(edits, reverse=True):
+            l = ls[ln - 1]
+            ls[ln - 1] = l[:col] + "é中ü" + l[col:]
+        p = Prefixer()
+        p.visit(ast.parse(src))
+        for ln in p.lines:
+            l = ls[ln - 1]
+            ind = len(l) - len(l.lstrip())
+            if l.strip() and not l.lstrip().startswith(("@", "#")):
+                ls[ln - 1] = l[:ind] + '"éééé中中"; ' + l[ind:]
+        cand = "\n".join(ls)
+        _quiet_compile(cand)
+        out[f"nonascii2_{name}"] = cand.encode("utf8")
+    except Exception:  # noqa: BLE001
+        pass
     return out
 
 
